@@ -1,6 +1,7 @@
 import PybtexModel.Drv.Json
 import PybtexModel.Drv.C01
 import PybtexModel.Model.Interp
+import PybtexModel.Model.InterpFn
 open Lean
 namespace Pybtex.Drv.C03
 open Pybtex.Interp
@@ -67,6 +68,101 @@ def bstrun (j : Json) : Except String Json := do
       pure (obj [("out", obj [("bbl", strToJson o.bbl), ("reports", arr (o.reports.map reportJ)),
                               ("printed", strs o.printed)])])
 
-def handlers : List (String × (Json → Except String Json)) := [("bstrun", bstrun)]
+
+/-! ### function level: one built-in / variable object on a given stack (`bstbuiltin`), `command_sort` alone (`bstsort`) -/
+
+mutual
+def tokJ : Bst.Tok → Json
+  | .int v => obj [("i", int v)]
+  | .str v => obj [("s", strToJson v)]
+  | .quoted n => obj [("q", strToJson n)]
+  | .name n => obj [("n", strToJson n)]
+  | .fn body => obj [("f", Json.arr (toksJ body).toArray)]
+def toksJ : List Bst.Tok → List Json
+  | [] => []
+  | t :: ts => tokJ t :: toksJ ts
+end
+
+def valJ : Val → Json
+  | .int n => obj [("i", int n)]
+  | .str x => obj [("s", strToJson x)]
+  | .missing n => obj [("m", strToJson n)]
+  | .fn body => obj [("f", Json.arr (toksJ body).toArray)]
+  | .ref n => obj [("q", strToJson (lower n))]
+
+/-- a function value given by the source text of its body: parsed as `FUNCTION {x} {<src>}` by the C15 model
+(`parse_string`), as the harness does with the real parser -/
+def fnOfSrc (src : Str) : Except String (List Bst.Tok) :=
+  match Bst.parseString ("FUNCTION {x} {".toList ++ src ++ "}".toList) with
+  | .ok [⟨_, [_, body]⟩] => pure body
+  | _ => throw "function body does not parse"
+
+def jsonToVal (j : Json) : Except String Val := do
+  match j.getObjVal? "i" with
+  | .ok n => pure (.int (← n.getInt?))
+  | .error _ =>
+  match j.getObjVal? "s" with
+  | .ok x => pure (.str (← jsonToStr x))
+  | .error _ =>
+  match j.getObjVal? "m" with
+  | .ok x => pure (.missing (← jsonToStr x))
+  | .error _ =>
+  match j.getObjVal? "q" with
+  | .ok x => pure (.ref (← jsonToStr x))
+  | .error _ =>
+  match j.getObjVal? "f" with
+  | .ok x => pure (.fn (← fnOfSrc (← jsonToStr x)))
+  | .error _ => throw "value expected"
+
+def pairJ (p : Str × Val) : Json := arr [strToJson p.1, valJ p.2]
+
+def globalsOf (s : St) : List Json :=
+  s.vars.dict.filterMap fun p =>
+    match p.2 with
+    | .gint v => some (arr [strToJson p.1, valJ (.int v)])
+    | .gstr v => some (arr [strToJson p.1, valJ v])
+    | _ => none
+
+def bstbuiltin (j : Json) : Except String Json := do
+  let decls ← getStr j "decls"
+  let name ← getStr j "name"
+  let fuel ← getNat j "fuel"
+  let vals ← (← getArr j "stack").mapM jsonToVal
+  match Bst.parseString decls with
+  | .error _ => pure (obj [("out", obj [("error", arr [Json.str "BST-SYNTAX", Json.str ""])])])
+  | .ok prog =>
+    match runProgram fuel noInput prog fresh with
+    | .error e => pure (obj [("out", obj [("error", ierrJ e)]), ("stage", Json.str "decls")])
+    | .ok s0 =>
+      let s1 ← match j.getObjVal? "entry" with
+        | .ok (Json.obj _) => do
+          let e ← j.getObjVal? "entry"
+          let fields ← (← getArr e "fields").mapM fun f => do
+            let a ← f.getArr?
+            pure ((← jsonToStr a[0]!), (← jsonToStr a[1]!))
+          pure (withEntry s0 (← getStr e "key") (← getStr e "type") fields)
+        | _ => pure s0
+      let s1 := { s1 with preamble := ← (match j.getObjVal? "preamble" with | .ok p => jsonToStr p | .error _ => pure []) }
+      match applyNamed fuel name (withStack s1 vals) with
+      | .error e => pure (obj [("out", obj [("error", ierrJ e)])])
+      | .ok s =>
+        let frame := match s.cur with | some k => frameOf s k | none => []
+        pure (obj [("out", obj [("stack", arr (s.stack.reverse.map valJ)), ("buffer", strs s.buffer), ("lines", strs s.lines),
+                                ("reports", arr (s.reports.map reportJ)), ("printed", strs s.printed),
+                                ("globals", arr (globalsOf s)), ("entryvars", arr (frame.map pairJ))])])
+
+def bstsort (j : Json) : Except String Json := do
+  let cites ← (← getArr j "cites").mapM fun c => do
+    let a ← c.getArr?
+    let k ← jsonToStr a[0]!
+    match a[1]! with
+    | Json.null => pure (k, none)
+    | x => pure (k, some (← jsonToStr x))
+  match sortOnly cites with
+  | .error e => pure (obj [("out", obj [("error", ierrJ e)])])
+  | .ok l => pure (obj [("out", obj [("citations", strs l)])])
+
+def handlers : List (String × (Json → Except String Json)) :=
+  [("bstrun", bstrun), ("bstbuiltin", bstbuiltin), ("bstsort", bstsort)]
 
 end Pybtex.Drv.C03
